@@ -309,7 +309,11 @@ def first_diff(a, b, path: str = '') -> str:
 
 
 def has_wild(canon) -> bool:
-    return WILD in json.dumps(canon, ensure_ascii=False)
+    if isinstance(canon, dict):
+        return any(has_wild(v) for v in canon.values())
+    if isinstance(canon, list):
+        return any(has_wild(v) for v in canon)
+    return isinstance(canon, str) and canon == WILD
 
 
 def compare_text_canon(want: dict, got: dict, cs: bool) -> str:
@@ -899,7 +903,7 @@ def execute_gen_text(desc, ctx):
     after = {key: canon_ent_text(ent, cs, label) for key, ent in fgd.entities.items()}
     ctx.check(after == want, 'export_mutates', 'export() changed the definitions: ' + first_diff(want, after))
     if '\\"" +' in text or '\\" +' in text:
-        ctx.label('split_after_backslash')
+        ctx.label('escaped_quote_at_chunk_end')
     if '" +\n' in text:
         ctx.label('split')
 
@@ -1203,18 +1207,18 @@ def _execute_lazy(desc, ctx, db):
 SUBCHECKS = [
     Sub('shipped_text', execute_shipped, enumerate=shipped_enumerate, quick_shards=8, thorough_shards=16, floor=1000,
         must_hit=('whole', 'ent', 'alias', 'type:BRUSH', 'type:NPC')),
-    Sub('gen_text', execute_gen_text, strategy=gen_text_strategy, quick=960, thorough=40000, quick_shards=16,
+    Sub('gen_text', execute_gen_text, strategy=gen_text_strategy, quick=960, thorough=30000, quick_shards=16,
         floor=100,
         must_hit=('cs0', 'cs1', 'label0', 'label1', 'empty_disp', 'empty_disp_nothing_after', 'long', 'long_no_space',
                   'long_with_space', 'long_with_newline', 'split', 'tagged_dup', 'flag_tags', 'choice_tags', 'alias',
                   'io_decays', 'io_valid', 'resources', 'res_tags', 'empty_tag_map', 'helper:unknown', 'helper:size', 'helper:frustum',
                   'empty_choice_name', 'default_needs_escape')
         + tuple('type:' + n for n in ('BASE', 'POINT', 'BRUSH', 'ROPES', 'TRACK', 'FILTER', 'NPC', 'EXTEND'))),
-    Sub('binary', execute_binary, strategy=gen_bin_strategy, enumerate=binary_enumerate, quick=200, thorough=5000,
+    Sub('binary', execute_binary, strategy=gen_bin_strategy, enumerate=binary_enumerate, quick=200, thorough=4000,
         quick_shards=8, floor=50, enum_counts_distinct=True,
         must_hit=('shipped_slice', 'generated', 'alias', 'nobase', 'kv_default', 'kv_readonly', 'flags', 'res_tags',
                   'empty_tag_map')),
-    Sub('lazy', execute_lazy, strategy=lazy_strategy, quick=120, thorough=4000, quick_shards=8, floor=20,
+    Sub('lazy', execute_lazy, strategy=lazy_strategy, quick=120, thorough=3000, quick_shards=8, floor=20,
         must_hit=('alias_before_base', 'then_full', 'repeat_query', 'via_api')),
 ]
 
